@@ -228,8 +228,17 @@ def run_sys_shard(bindir, seed, n, prof, outfile):
                 if line.startswith("#resume "):
                     nxt = int(line.split()[1])
         if nxt is None or nxt <= first:
-            # crashed without telling where: skip one history
-            nxt = first + 1 + sum(1 for l in open(part, errors="replace") if l.startswith("E")) if os.path.exists(part) else first + 1
+            # crashed without telling where (the harness itself aborted: one of its assertions, a
+            # thread that never settled): that is an observation too -- recorded, then skip one history
+            done = sum(1 for l in open(part, errors="replace") if l.startswith("E")) if os.path.exists(part) else 0
+            tail = ""
+            if os.path.exists(part):
+                lines = open(part, errors="replace").read().split("\n")
+                hs = [l for l in lines if l.startswith("H ")]
+                tail = (hs[-1] if len(hs) > done else "") + " | " + " | ".join(l[:120] for l in lines[-4:])
+            with open(outfile + ".crashes", "a") as c:
+                c.write("history %d of seed %d profile %s: harness process ended with rc=%s: %s :: %s\n" % (first + done, seed, prof, rc, tail[:600], out[-600:].replace("\n", " / ")))
+            nxt = first + 1 + done
         first = nxt
     with open(outfile, "w") as o:
         for p in parts:
@@ -306,6 +315,10 @@ def sys_stream_for(name, profiles, quick_n, thorough_n, release=False, shards_pe
                 raise BuildError("model driver failed on %s: %s" % (f, out[-2000:]))
             parse_sys_output(res, out, f)
             collect_stats(res, f, nsamples=0)
+            if os.path.exists(f + ".crashes"):
+                for l in open(f + ".crashes", errors="replace"):
+                    res.disagreements.append({"hist": "harness-abort", "detail": l.strip()[:3000], "file": None})
+                os.remove(f + ".crashes")
         # one sample history
         for f in files:
             try:
